@@ -1678,6 +1678,11 @@ class Engine:
       new = list_append(tgt, coerce(args[0], tgt.t.args[0]))
     elif k == 'list' and name == 'extend':
       new = list_concat(tgt, coerce(args[0], tgt.t))
+    elif k == 'list' and name == 'insert' and len(args) == 2:
+      # xs.insert(i, e) == xs[i:i] = [e]  (the index is clamped like a slice bound)
+      lo_, _hi = clamp_slice(sv.l_len(tgt), args[0].z, None)
+      one = sv.list_from_elems(tgt.t, [coerce(args[1], tgt.t.args[0])])
+      new = list_insert_slice(tgt, lo_, one)
     elif k == 'list' and name == 'pop' and not args:
       self.emit(st, 'safe-pop', sv.l_len(tgt) > 0, c, 'pop from non-empty list')
       new = sv.mk_list(tgt.t, sv.l_arr(tgt), sv.l_len(tgt) - 1)
